@@ -1,5 +1,5 @@
 import Lean.Data.Json
-import ColaVerif.Basic.GInt
+import ColaVerif.Basic.GRat
 import ColaVerif.Model.Matmat
 import ColaVerif.Model.Wf
 import ColaVerif.Model.Bound
@@ -26,10 +26,17 @@ def jStr (j : Json) : E String :=
 def jBool (j : Json) : E Bool :=
   match j with | .bool b => pure b | _ => throw "bool expected"
 
-def jZ (j : Json) : E GInt :=
+def jQ (j : Json) : E Rat :=
+  match j.getObjVal? "q" with
+  | .ok (.arr #[n, d]) => do
+      let dn ← jNat d
+      if dn == 0 then throw "zero denominator" else pure (mkRat (← jInt n) dn)
+  | _ => do pure ((← jInt j : Int) : Rat)
+
+def jZ (j : Json) : E GRat :=
   match j with
-  | .arr #[a, b] => do pure ⟨← jInt a, ← jInt b⟩
-  | _ => do pure ⟨← jInt j, 0⟩
+  | .arr #[a, b] => do pure ⟨← jQ a, ← jQ b⟩
+  | _ => do pure ⟨← jQ j, 0⟩
 
 def jDt (j : Json) : E DType := do
   match ← jStr j with
@@ -42,11 +49,11 @@ def jAnn (j : Json) : E Ann := do
   | "Stiefel" => pure .stiefel | "Unitary" => pure .unitary
   | s => throw s!"ann {s}"
 
-def jVec (j : Json) : E (Array GInt) := do (← jArr j).mapM jZ
-def jMat (j : Json) : E (Array (Array GInt)) := do (← jArr j).mapM jVec
+def jVec (j : Json) : E (Array GRat) := do (← jArr j).mapM jZ
+def jMat (j : Json) : E (Array (Array GRat)) := do (← jArr j).mapM jVec
 
-def vecF (v : Array GInt) : Nat → GInt := fun i => v.getD i 0
-def matF (m : Array (Array GInt)) : MatF GInt := fun i j => (m.getD i #[]).getD j 0
+def vecF (v : Array GRat) : Nat → GRat := fun i => v.getD i 0
+def matF (m : Array (Array GRat)) : MatF GRat := fun i j => (m.getD i #[]).getD j 0
 
 def jOptInt (j : Json) : E (Option Int) :=
   match j with | .null => pure none | _ => do pure (some (← jInt j))
@@ -59,11 +66,11 @@ def jIx (j : Json) : E Ix := do
     | .ok l => do pure (.arr (← (← jArr l).toList.mapM jInt))
     | _ => throw s!"ix: {j.compress}"
 
-partial def jOp (j : Json) : E (Op GInt) := do
+partial def jOp (j : Json) : E (Op GRat) := do
   let a ← jArr j
   let tag ← jStr (a.getD 0 .null)
   let arg (i : Nat) : Json := a.getD i .null
-  let rest : E (List (Op GInt)) := (a.toList.drop 1).mapM jOp
+  let rest : E (List (Op GRat)) := (a.toList.drop 1).mapM jOp
   match tag with
   | "dense" => pure (.dense (← jDt (arg 1)) (← jNat (arg 2)) (← jNat (arg 3)) (matF (← jMat (arg 4))))
   | "tri" => pure (.tri (← jDt (arg 1)) (← jNat (arg 2)) (← jNat (arg 3)) (← jBool (arg 4)) (matF (← jMat (arg 5))))
@@ -102,24 +109,25 @@ partial def jOp (j : Json) : E (Op GInt) := do
   | "ann" => pure (.annot (← jAnn (arg 1)) (← jOp (arg 2)))
   | t => throw s!"unknown op tag {t}"
 
-def showZ (z : GInt) : String := s!"[{z.re},{z.im}]"
-def showMat (r c : Nat) (m : MatF GInt) : String :=
+def showQ (q : Rat) : String := if q.den == 1 then toString q.num else s!"\"{q.num}/{q.den}\""
+def showZ (z : GRat) : String := s!"[{showQ z.re},{showQ z.im}]"
+def showMat (r c : Nat) (m : MatF GRat) : String :=
   "[" ++ ",".intercalate ((List.range r).map fun i =>
     "[" ++ ",".intercalate ((List.range c).map fun j => showZ (m i j)) ++ "]") ++ "]"
-def maxAbsMat (r c : Nat) (m : MatF GInt) : Nat :=
-  (List.range r).foldl (fun acc i => (List.range c).foldl (fun acc j => max acc (m i j).maxAbs) acc) 0
+def maxAbsMat (r c : Nat) (m : MatF GRat) : String :=
+  showQ ((List.range r).foldl (fun acc i => (List.range c).foldl (fun acc j => max acc (m i j).absL1) acc) 0)
 def showAnns (s : AnnSet) : String :=
   "[" ++ ",".intercalate ((AnnSet.canon s).map fun a => "\"" ++ a.toString ++ "\"") ++ "]"
 
 def showStrs (l : List String) : String :=
   "[" ++ ",".intercalate (l.map fun s => "\"" ++ s ++ "\"") ++ "]"
 
-def header (A : Op GInt) : String :=
+def header (A : Op GRat) : String :=
   s!"\"rows\":{A.rows},\"cols\":{A.cols},\"dtype\":\"{A.dtype.toString}\",\"anns\":{showAnns A.anns},\"wf\":{A.wf},\"clauses\":{showStrs A.clauses}"
 
-def absMat (m : MatF GInt) : MatF GInt := fun i j => Op.absZ (m i j)
+def absMat (m : MatF GRat) : MatF GRat := fun i j => Op.absZ (m i j)
 
-def kindName : Op GInt → String
+def kindName : Op GRat → String
   | .dense .. => "dense" | .tri .. => "tri" | .sparse .. => "sparse" | .scalar .. => "scalar"
   | .eye .. => "eye" | .prod _ => "prod" | .sum _ => "sum" | .kron _ => "kron" | .kronsum _ => "kronsum"
   | .bdiag .. => "bdiag" | .diag .. => "diag" | .tridiag .. => "tridiag" | .transpose _ => "T"
@@ -127,15 +135,15 @@ def kindName : Op GInt → String
   | .house .. => "house" | .generic _ => "generic" | .annot .. => "ann"
 
 /-- kind tree of an operator: [kind, annotations, children…] (declaration wrappers are not nodes) -/
-partial def skel (A : Op GInt) : String :=
+partial def skel (A : Op GRat) : String :=
   let c := A.core
-  let kids : List (Op GInt) := match c with
+  let kids : List (Op GRat) := match c with
     | .prod Ms => Ms | .sum Ms => Ms | .kron Ms => Ms | .kronsum Ms => Ms | .bdiag Ms _ => Ms
     | .concat _ Ms => Ms | .transpose B => [B] | .adjoint B => [B] | .sliced B _ _ => [B]
     | _ => []   -- `generic` keeps only the product function of its argument, not the operator
   "[" ++ ",".intercalate (["\"" ++ kindName c ++ "\"", showAnns A.anns] ++ kids.map skel) ++ "]"
 
-def showVec (n : Nat) (v : Nat → GInt) : String :=
+def showVec (n : Nat) (v : Nat → GRat) : String :=
   "[" ++ ",".intercalate ((List.range n).map fun i => showZ (v i)) ++ "]"
 
 def jGIx (j : Json) : E GIx := do
@@ -146,7 +154,7 @@ def jGIx (j : Json) : E GIx := do
     | .ok l => do pure (.list (← (← jArr l).toList.mapM jInt))
     | _ => do pure (.ix (← jIx j))
 
-def showRes (r : GRes GInt) : String :=
+def showRes (r : GRes GRat) : String :=
   match r with
   | .scalar z => "{\"kind\":\"scalar\",\"value\":" ++ showZ z ++ "}"
   | .vec n v => "{\"kind\":\"vec\",\"value\":" ++ showVec n v ++ "}"
